@@ -3,6 +3,7 @@ package main
 import (
 	"encoding/json"
 	"fmt"
+	"strings"
 	"time"
 
 	"github.com/crillab/gophersat/solver"
@@ -75,7 +76,13 @@ func genAppendOp(r *Rng, n int, model []bool) HistOp {
 		sum := 0
 		for i := range op.Weights {
 			op.Weights[i] = r.Range(1, 4)
+			if r.Chance(1, 6) { // a weight 0 is a legal coefficient
+				op.Weights[i] = 0
+			}
 			sum += op.Weights[i]
+		}
+		if sum < 1 {
+			op.Weights[0], sum = 1, sum+1
 		}
 		op.Card = r.Range(1, sum)
 	}
@@ -121,7 +128,7 @@ func genHistCase(r *Rng, tier string) HistCase {
 func init() {
 	register(&Prop{
 		ID: "C09",
-		Rule: "histories of 3..11 operations (Solve | AppendClause) on a live solver built from a 2/3-SAT formula (2..8 variables, optionally with a unit clause) or a small cardinality/PB constraint set; appended constraints are clauses (sometimes with a repeated literal), cardinality constraints or PB constraints with weights 1..4, over the variables seen so far or new ones (next index, or skipping 1-2 indices). Every Solve is compared with the verified exhaustive verdict on the conjunction of the base problem and everything appended so far, and its model is evaluated on that conjunction. Non-trivial = at least one append followed by a solve with status Sat before it; distinct = distinct history.",
+		Rule: "histories of 3..11 operations (Solve | AppendClause) on a live solver built from a 2/3-SAT formula (2..8 variables, optionally with a unit clause) or a small cardinality/PB constraint set; appended constraints are clauses (sometimes with a repeated literal), cardinality constraints or PB constraints with weights 1..4 (1 in 6 replaced by 0), over the variables seen so far or new ones (next index, or skipping 1-2 indices). Every Solve is compared with the verified exhaustive verdict on the conjunction of the base problem and everything appended so far, and its model is evaluated on that conjunction; every AppendClause call is compared with the Lean mirror of its simplification prologue (GS.Append.appendSimplify: satisfied / refuting / units / attached in reduced form), the inputs being read by a hook at the start of the call and the effect from the solver's state afterwards. Non-trivial = at least one append followed by a solve with status Sat before it; distinct = distinct history.",
 		Gens:    []Gen{{Name: "history", Weight: 1, Make: func(r *Rng, tier string) interface{} { return genHistCase(r, tier) }}},
 		Run:     runHistCase,
 		Cases:   defCases(4000, 100000),
@@ -227,7 +234,7 @@ func runHistCase(o *Oracle, d json.RawMessage, oc *Outcome) {
 				cl = solver.NewClause(lits)
 				oc.Tag("append-clause")
 			}
-			s.AppendClause(cl)
+			appendMirror(o, oc, s, cl, i)
 			drain()
 			if len(op.Lits) == 0 {
 				events = append(events, "A e")
@@ -286,4 +293,53 @@ func runHistCase(o *Oracle, d json.RawMessage, oc *Outcome) {
 	} else {
 		oc.Tag("ends-sat")
 	}
+}
+
+// appendMirror calls s.AppendClause(cl) and ties the call to the Lean mirror of its prologue
+// (GS.Append.appendSimplify, theorem appendSimplify_sem): given the top-level bindings and the
+// constraint as handed over (both reported by the hook at the start of the call), the mirror says
+// whether the constraint is dropped as satisfied, refutes the problem, is turned into top-level
+// facts, or is attached in a reduced form; what the solver did is read from its state afterwards.
+func appendMirror(o *Oracle, oc *Outcome, s *solver.Solver, cl *solver.Clause, opIdx int) {
+	var pre appendObs
+	seen := false
+	s.VerifSetAppendHook(func(top []int, c solver.PBConstr, pb bool) {
+		pre, seen = appendObs{append([]int{}, top...), c, pb}, true
+	})
+	st0, nb0, _, _, facts0 := s.VerifAppendState()
+	s.AppendClause(cl)
+	s.VerifSetAppendHook(nil)
+	st1, nb1, last, lastPB, facts1 := s.VerifAppendState()
+	if !seen || st0 == solver.Unsat {
+		return // already refuted: nothing AppendClause does is observable
+	}
+	ws := ""
+	if pre.pb {
+		ws = encInts(pre.c.Weights)
+	}
+	want := o.Ask(fmt.Sprintf("appendsimp %s | %s | %s | %d", encInts(pre.top), encInts(pre.c.Lits), ws, pre.c.AtLeast))
+	oc.Corr++
+	var got string
+	switch {
+	case nb1 == nb0+1:
+		w := "e"
+		if lastPB {
+			w = encInts(last.Weights)
+		}
+		got = fmt.Sprintf("attach %d ; %s ; %s", last.AtLeast, encInts(last.Lits), w)
+	case len(facts1) > len(facts0):
+		got = "units " + encInts(facts1[len(facts0):])
+	case st1 == solver.Unsat:
+		got = "unsat"
+	default:
+		got = "trivial"
+	}
+	ok := got == want
+	if !ok && strings.HasPrefix(got, "units ") && strings.HasPrefix(want, got) && st1 == solver.Unsat {
+		ok = true // propagateUnits stops at the first unit that refutes the problem
+	}
+	if !ok {
+		oc.Fail("corr", "append-mirror", "solver.AppendClause", "op %d: top level %v, constraint %v*%v >= %d (explicit weights: %v): Go did %q, the mirror GS.Append.appendSimplify says %q", opIdx, pre.top, pre.c.Weights, pre.c.Lits, pre.c.AtLeast, pre.pb, got, want)
+	}
+	oc.Tag("append-mirror:" + strings.SplitN(want, " ", 2)[0])
 }
